@@ -306,6 +306,42 @@ func TestCodec(t *testing.T) {
 		res.Count("large-table")
 		writeSeq([]smap{big})
 	}
+	// wide tables: the number of sessions (connected clients, holding or not) and of holds per session around
+	// the boundaries of the one- and two-byte count prefixes, each written alone and as one rewrite sequence
+	// that grows and shrinks across them on the same file
+	wide := func(nSess, nHolds int) smap {
+		m := smap{}
+		for s := 0; s < nSess; s++ {
+			ls := []cl.Lock{}
+			if s == 0 {
+				for k := 0; k < nHolds; k++ {
+					ls = append(ls, cl.New(fmt.Sprintf("l%d", k), fmt.Sprintf("k%d", k), 1))
+				}
+			} else if s%3 == 1 {
+				ls = append(ls, cl.New(fmt.Sprintf("w%d", s), "k", int32(1+s%3)))
+			}
+			m[fmt.Sprintf("s%05d", s)] = ls
+		}
+		return m
+	}
+	counts := []int{63, 64, 65, 100, 127, 128, 129, 200}
+	if common.Thorough() {
+		counts = append(counts, 8191, 8192, 16383, 16384, 16385)
+	}
+	var across []smap
+	for _, n := range counts {
+		res.Count("wide-table")
+		writeSeq([]smap{wide(n, 1)})
+		writeSeq([]smap{wide(2, n)})
+		if n <= 200 {
+			across = append(across, wide(n, 1))
+		}
+	}
+	for i := len(across) - 2; i >= 0; i -= 2 {
+		across = append(across, across[i])
+	}
+	res.Count("wide-table-rewrite-sequence")
+	writeSeq(across)
 	// long strings (the server accepts any non-empty name, gRPC messages go up to 4 MiB): lengths around
 	// and beyond the two-byte / three-byte length prefixes, as lock name, as key and as session id
 	for _, n := range []int{16383, 16385, 20000, 70000} {
